@@ -24,6 +24,7 @@ package asr
 //@     complete [all_iterations_no_early_exit]
 //@   loop 3
 //@     complete [all_iterations_no_early_exit]
+//@     step [every_state_the_character_stands_for_is_switched_on_when_the_alphabet_has_it] has(charToIndex, c2) ==> seqs[cur.id].seq[j].counts[charToIndex[c2]] == 1.0
 //@   loop 4
 //@     complete [all_iterations_no_early_exit]
 //@   loop 5
